@@ -14,7 +14,8 @@ out of scope):
   `BosonOperator.is_normal_ordered`, `is_boson_preserving`;
 * `PolynomialTensor.__eq__` (polynomial_tensor.py);
 * `is_identity`, `hermitian_conjugated` / `is_hermitian` for QubitOperator, QuadOperator,
-  FermionOperator and BosonOperator (operator_utils.py; the last two normal order first: Model.C03).
+  FermionOperator, BosonOperator and InteractionOperator (operator_utils.py; the last three
+  normal order first: Model.C03).
 
 Absolute values of complex numbers are irrational; every comparison
 `abs(x) < t` is modelled *exactly* through squares (`|x|² < t²` with the sign of
@@ -192,6 +193,29 @@ def isHermitianFermion (tol : Rat) (a : Op) : Bool :=
 
 def isHermitianBoson (tol : Rat) (a : Op) : Bool :=
   isclose tol (C03.normalOrdered tol .boson a) (C03.normalOrdered tol .boson (hcBoson a))
+
+/-! #### InteractionOperator: `hermitian_conjugated` is `tensor.T.conj()` on the one- and two-body
+tensors (all axes reversed), `is_hermitian` compares the NORMAL-ORDERED operators with
+`PolynomialTensor.__eq__` (the two-body tensor is not a unique representation:
+`a†_p a†_q = -a†_q a†_p`) -/
+
+/-- `one_body.T.conj()` on the flattened `n × n` tensor -/
+def hcOneBody (n : Nat) (T : List GQ) : List GQ :=
+  (List.range n).flatMap fun p => (List.range n).map fun q => (T.getD (q * n + p) 0).conj
+
+/-- `two_body.T.conj()`: `T†[p,q,r,s] = conj T[s,r,q,p]` -/
+def hcTwoBody (n : Nat) (T : List GQ) : List GQ :=
+  (List.range n).flatMap fun p => (List.range n).flatMap fun q =>
+    (List.range n).flatMap fun r => (List.range n).map fun s => (C03.t4 n T s r q p).conj
+
+/-- the tensors of `normal_ordered(InteractionOperator(constant, one_body, two_body))` -/
+def ioNormalTensors (n : Nat) (c : GQ) (one two : List GQ) : Tensors :=
+  [([], [c]), ([1, 0], one), ([1, 1, 0, 0], C03.normalOrderedTwoBody n two)]
+
+/-- `is_hermitian(InteractionOperator)` -/
+def isHermitianIO (tol : Rat) (n : Nat) (c : GQ) (one two : List GQ) : Bool :=
+  tensorEq tol n (ioNormalTensors n c one two) n
+    (ioNormalTensors n c.conj (hcOneBody n one) (hcTwoBody n two))
 
 def isHermitianQubit (tol : Rat) (a : Op) : Bool := isclose tol a (hcQubit a)
 def isHermitianQuad (tol : Rat) (a : Op) : Bool := isclose tol a (hcQuad a)
